@@ -31,12 +31,17 @@ Definition is_canonical_dec (s : str) : bool :=
 Fixpoint dec_value (s : str) (acc : N) : N :=
   match s with [] => acc | c :: r => dec_value r (10 * acc + (c - 48)) end.
 
-(* what writing the key without quotes does to it *)
+(* what writing the key without quotes does to it.  (The second conjunct — the value prints back as the same text —
+   is implied by the first for every digit string; it is kept executable so that no arithmetic lemma about [dec] is
+   needed; Proofs/Render.v checks it on 0..999 and the yamlkey stream checks [retype_key] against PyYAML.) *)
 Definition retype_key (k : key) : key :=
   match k with
-  | KStr s => if is_canonical_dec s then KInt (dec_value s 0) else k
+  | KStr s => if is_canonical_dec s && str_eqb (dec (dec_value s 0)) s then KInt (dec_value s 0) else k
   | KInt _ => k
   end.
+
+(* str(status_code) — parse_operations passes str(sc) to parse_response since the fix of F07b *)
+Definition key_str (k : key) : str := match k with KStr s => s | KInt n => dec n end.
 
 Record operation := {
   o_id : str;              (* operationId *)
@@ -61,22 +66,13 @@ Definition http_methods : list str :=
 Definition upper_str (s : str) : str := map upper_ascii s.
 Definition is_method (m : str) : bool := mem_str (upper_str m) http_methods.
 
-(* parse_response: `if not isinstance(code, str): raise TypeError("code must be a string")` — inside the
-   try block of parse_operations, whose handler warns "Skipping operation parsing …" and continues. *)
-Fixpoint codes_of (ks : list key) : option (list str) :=
-  match ks with
-  | [] => Some []
-  | KStr s :: r => match codes_of r with Some l => Some (s :: l) | None => None end
-  | KInt _ :: _ => None
-  end.
+(* parse_operations: `parse_response(str(sc), …)` (fix of F07b): an int key behaves like its decimal string *)
+Definition codes_of (ks : list key) : list str := map key_str ks.
 
 Definition parse_op (path : str) (mo : str * operation) : list pop :=
   if is_method (fst mo) then
-    match codes_of (o_resps (snd mo)) with
-    | Some cs => [{| p_path := path; p_method := upper_str (fst mo); p_id := o_id (snd mo);
-                     p_tags := o_tags (snd mo); p_sig := o_sig (snd mo); p_codes := cs |}]
-    | None => []      (* skipped with a warning; generation "succeeds" *)
-    end
+    [{| p_path := path; p_method := upper_str (fst mo); p_id := o_id (snd mo);
+        p_tags := o_tags (snd mo); p_sig := o_sig (snd mo); p_codes := codes_of (o_resps (snd mo)) |}]
   else [].
 
 Definition parse_item (pi : str * path_item) : list pop := flat_map (parse_op (fst pi)) (snd pi).
@@ -86,13 +82,6 @@ Definition parse_doc (d : doc) : list pop := flat_map parse_item d.
 Definition key_is_str (k : key) : bool := match k with KStr _ => true | KInt _ => false end.
 Definition all_str_op (o : operation) : bool := forallb key_is_str (o_resps o).
 Definition all_str (d : doc) : bool := forallb (fun pi => forallb (fun mo => all_str_op (snd mo)) (snd pi)) d.
-
-(* guard F07b: no response code is a canonical decimal (so unquoting changes nothing) *)
-Definition key_stable (k : key) : bool := match k with KStr s => negb (is_canonical_dec s) | KInt _ => true end.
-Definition guard_F07b (d : doc) : bool :=
-  forallb (fun pi => forallb (fun mo => forallb key_stable (o_resps (snd mo))) (snd pi)) d.
-(* the operations that survive unquoting *)
-Definition survives (p : pop) : bool := forallb (fun c => negb (is_canonical_dec c)) (p_codes p).
 
 (* ================================================================================================
    (2) tag grouping and the emitted method set *)
